@@ -149,7 +149,7 @@ type c10Snap struct {
 	list    map[string]string            // bucket -> list status
 	objs    map[string]map[string]string // bucket -> key -> view
 	raw     []string
-	upload  string // the victim upload as ListMultipartUploads / ListParts show it
+	upload  string            // the victim upload as ListMultipartUploads / ListParts show it
 	vers    map[string]string // bucket -> versioning status, where the backend has one
 }
 
